@@ -278,7 +278,7 @@ func FromTensor(t tensor.Tensor) (*ref.T, error) {
 		return out, nil
 	}
 	d, isDense := t.(*tensor.Dense)
-	if isDense && !d.RequiresIterator() && !d.IsMaterializable() {
+	if isDense && !d.RequiresIterator() && !d.IsMaterializable() && !(d.DataOrder().IsColMajor() && len(shape) > 1) {
 		if err := encodeSlice(data, out.Bits); err != nil {
 			return nil, err
 		}
